@@ -71,7 +71,85 @@ def timestamp_witnesses(rep):
                    "replayer(native sweep, not solver-decided)", "holds", time.time() - t0, queries=tot)
 
 
+def range_format(rep):
+    """rsx + z3: Range::to_header_string on a symbolic Range: on every path the text is the RFC 9110 single-range form of exactly
+    the variant's own fields (decimal rendering by core::fmt is trusted; parse of those forms is decided by the Kani harnesses)."""
+    import re
+    import z3  # noqa: F401
+    from rsx import Term, Variant, deref, vkey
+    t0 = time.time()
+    prog = rsx.Program()
+    prog.load(src("crates/s3s/src/dto/range.rs"), "dto::range")
+    fn = prog.find_method("Range", "to_header_string")
+    if fn is None:
+        rep.fail_inconclusive("Range::to_header_string not found")
+        return
+
+    def macro_hook(ex, path, node, env):
+        if path.split("::")[-1] != "format":
+            return NotImplemented
+        args = node.get("args") or []
+        if not args or args[0].get("k") != "Lit":
+            raise rsx.Unsupported("format! without a literal template")
+        tpl = args[0]["v"]
+        vals = [ex.expr(a, env) for a in args[1:]]
+        out, pos = [], 0
+        for m in re.finditer(r"\{([A-Za-z_][A-Za-z0-9_]*)?(:[^}]*)?\}", tpl):
+            out.append(tpl[pos:m.start()])
+            if m.group(2):
+                raise rsx.Unsupported("format! with a format spec %s" % m.group(2))
+            if m.group(1):
+                fr = env.lookup_frame(m.group(1))
+                if fr is None:
+                    raise rsx.Unsupported("format! captures unknown name " + m.group(1))
+                out.append(deref(fr[m.group(1)]))
+            else:
+                out.append(deref(vals.pop(0)))
+            pos = m.end()
+        out.append(tpl[pos:])
+        return Term("text", *[x for x in out if x != ""])
+    ex = rsx.Executor(prog, macro_hook=macro_hook)
+    shapes = {
+        "Int{first,last}": (lambda: Variant("Range::Int", fields={"first": Term("first"), "last": Variant("Some", [Term("last")])}),
+                            ["bytes=", Term("first"), "-", Term("last")]),
+        "Int{first}": (lambda: Variant("Range::Int", fields={"first": Term("first"), "last": Variant("None")}), ["bytes=", Term("first"), "-"]),
+        "Suffix{length}": (lambda: Variant("Range::Suffix", fields={"length": Term("length")}), ["bytes=-", Term("length")]),
+    }
+    bad = []
+    n = 0
+    for name, (mk, want) in shapes.items():
+        try:
+            paths = ex.explore(fn, lambda mk=mk: [mk()], "dto::range", self_ty="Range")
+        except rsx.Unsupported as e:
+            rep.fail_inconclusive("Range::to_header_string: %s" % e)
+            return
+        for p in paths:
+            n += 1
+            r = deref(p.ret)
+            got = [vkey(a) for a in r.args] if isinstance(r, Term) and r.op == "text" else None
+            if p.panic or got != [vkey(w) for w in want]:
+                bad.append("%s is written as %s, RFC 9110 form is %s" % (name, p.panic or r, want))
+    rep.encoded("crates/s3s/src/dto/range.rs", "Range::to_header_string (rsx)")
+    out = replay.call_fn("range_roundtrip")
+    if "evaluations" not in out:
+        rep.fail_inconclusive("range round-trip witnesses failed: %s" % out)
+        return
+    rep.traces_validated += out["evaluations"]
+    if bad or out["bad"]:
+        what = (bad + [str(b) for b in out["bad"]])[0]
+        res = rep.violation("range_format", what, rep.save_cex("range_format", {"symbolic": bad, "native": out["bad"]}), confirmed=bool(out["bad"]))
+        rep.obligation("Range::to_header_string", "rsx+z3", res, time.time() - t0)
+    else:
+        rep.obligation("Range::to_header_string writes the RFC 9110 single-range form of the variant's own fields on all %d paths; %d native witnesses "
+                       "(digit-length and 2^63 boundaries): parse(to_header_string(r)) == r" % (n, out["evaluations"]), "rsx+z3", "holds", time.time() - t0,
+                       queries=ex.queries + out["evaluations"])
+
+
 def run(rep, tier):
+    try:
+        range_format(rep)
+    except rsx.Unsupported as e:
+        rep.fail_inconclusive("Range::to_header_string: %s" % e)
     rep.encoded("crates/s3s/src/dto/range.rs", "Range::check, Range::parse")
     rep.encoded("crates/s3s/src/dto/copy_source.rs", "CopySource::parse, format_to_string")
     rep.bound("Range::check: all Range values x all u64 lengths (full width, no unwinding needed)")
